@@ -80,7 +80,10 @@ class FuncDefn(BaseOp):
     def deserialize(self) -> ops.FuncDefn:
         poly_func = self.signature.deserialize()
         return ops.FuncDefn(
-            self.name, inputs=poly_func.body.input, _outputs=poly_func.body.output
+            self.name,
+            inputs=poly_func.body.input,
+            params=poly_func.params,
+            _outputs=poly_func.body.output,
         )
 
 
